@@ -12,6 +12,7 @@ C11 — Reads are bounded and grouped: one request per touched chunk, none outsi
   requests `chunkSizes n rpc` (in records): at most `⌈n / rpc⌉` of them, together covering exactly `n` records.
 -/
 import Alos2.Proofs.Geometry
+import Alos2.Proofs.ReaderPixels
 
 namespace Alos2.C11
 
@@ -45,6 +46,37 @@ theorem regular_read_bounds (g : Geometry) (file : Bytes) (hsize : headerSize + 
   refine ⟨Geometry.chunk_span g rpc hrpc c hc, ?_⟩
   have : min ((c + 1) * rpc) g.n * g.L ≤ g.n * g.L := Nat.mul_le_mul_right _ (Nat.min_le_right _ _)
   omega
+
+/-- THE SAME BOUNDS FOR THE ARRAY THE READER BUILDS from an image file (layout-based reader): for a well-framed, self-consistent
+    file the request for group c of `records_per_chunk` lines spans exactly the bytes from the first sample of line c·rpc to the
+    end of the last line of the group, inside the file — so with `one_read_per_touched_chunk` every load reads one such span per
+    touched group and nothing else -/
+theorem reader_read_bounds (file : Bytes) (name : String) (rpc : Nat) (gname : String) (g : ImageGroup)
+    (h : openImageFile file name rpc = .ok (gname, g))
+    (header : Val) (recs : List Val) (hr : readImageRecords file rpc = .ok (header, recs))
+    (hrpc : 0 < rpc) (hn : 0 < recs.length)
+    (L : Nat) (hL : 0 < L) (hdrL : intAt header ["sar_data_record_length"] = .ok (L : Int))
+    (hrl : ∀ r ∈ recs, intAt r ["preamble", "record_length"] = .ok (L : Int))
+    (t : Nat) (ht : t = 10 ∨ t = 11) (hty : ∀ r ∈ recs, intAt r ["preamble", "record_type"] = .ok (t : Int))
+    (m bpp : Nat) (dt : String)
+    (hbpp : Gen.dtypes.find? (fun d => d.1 = g.array.typeCode) = some (g.array.typeCode, dt, bpp))
+    (hshape : g.array.shape = (((recs.length : Nat) : Int), ((m : Nat) : Int)))
+    (hLm : L = prefixOf t + m * bpp)
+    (c : Nat) (hc : c * normalizeChunksize rpc recs.length < recs.length) :
+    (imageOfMeta file g.array bpp).rpc = normalizeChunksize rpc recs.length ∧
+    (chunkRanges (imageOfMeta file g.array bpp).ranges (imageOfMeta file g.array bpp).rpc).getD c (0, 0) =
+      (720 + (c * normalizeChunksize rpc recs.length) * L + prefixOf t,
+       720 + (min ((c + 1) * normalizeChunksize rpc recs.length) recs.length) * L) ∧
+    720 + (min ((c + 1) * normalizeChunksize rpc recs.length) recs.length) * L ≤ file.length := by
+  obtain ⟨himg, _, hsize⟩ := reader_image_is_regular file name rpc gname g h header recs hr hrpc hn L hL hdrL hrl t ht hty m bpp dt
+    hbpp hshape hLm
+  let g' : Geometry := { n := recs.length, m := m, bpp := bpp, P := prefixOf t, code := t }
+  have hgL : g'.L = L := hLm.symm
+  have hb := regular_read_bounds g' file (by rw [hgL]; exact hsize) (normalizeChunksize rpc recs.length)
+    (normalizeChunksize_pos rpc recs.length hrpc hn) c hc
+  rw [hgL] at hb
+  rw [himg]
+  exact ⟨rfl, hb.1, hb.2⟩
 
 theorem open_reads (t : RecordTypes) (file : Bytes) (n L rpc : Nat) (hrpc : 0 < rpc) :
     (readMetadata t file n L rpc).2 <+: (chunkSizes n rpc).map (· * L) ∧
